@@ -14,7 +14,10 @@ pub type AnyBox = Box<dyn Any + Send + Sync + 'static>;
 /// An entry in [AnyStorage].
 pub type AnyEntry = Arc<tokio::sync::RwLock<Option<AnyBox>>>;
 
+#[cfg(not(remoc_verif))]
 type AnyMap = HashMap<Uuid, AnyEntry>;
+#[cfg(remoc_verif)]
+type AnyMap = HashMap<Uuid, AnyEntry, crate::exec::verif::DetHasher>;
 
 /// Stores arbitrary data indexed by automatically generated keys.
 ///
@@ -34,7 +37,7 @@ impl fmt::Debug for AnyStorage {
 impl AnyStorage {
     /// Creates a new storage.
     pub(crate) fn new() -> Self {
-        Self { entries: Arc::new(std::sync::Mutex::new(AnyMap::new())) }
+        Self { entries: Arc::new(std::sync::Mutex::new(AnyMap::default())) }
     }
 
     /// Insert a new entry into the storage and return its key.
